@@ -42,6 +42,7 @@ type Contract struct {
 	Mode     string
 	Requires []Clause
 	Assume   []Clause
+	Cases    []Clause
 	AssumePost []Clause
 	Lets     []LetDef
 	Ensures  []Clause
@@ -479,6 +480,19 @@ func (cs *ContractSet) parseLines(lines []string, file, pkgPath, schemaDir strin
 			var c Clause
 			c, err = mkClause(tags, rest)
 			cur.Requires = append(cur.Requires, c)
+		case "casesplit":
+			// casesplit E1 | E2 | ...: every ensures obligation is proved once per case and once for "none of them"
+			for _, part := range splitTop(rest, "|") {
+				if strings.TrimSpace(part) == "" {
+					continue
+				}
+				var c Clause
+				c, err = mkClause(tags, part)
+				if err != nil {
+					break
+				}
+				cur.Cases = append(cur.Cases, c)
+			}
 		case "assume":
 			// instance of an assumed lemma, evaluated at entry (trusted; listed in the evidence)
 			var c Clause
